@@ -51,7 +51,12 @@ JudgePrepare(e) ==
 
 DriftPrepare(e) ==
   LET r == FromList(Strip_(e.lines), Opt(e.red1), Opt(e.red2)) IN
-  IF e.out.ok /\ r.ok /\ Strip_(e.out.list) # r.f THEN {"prepared_list_differs_from_specification"} ELSE {}
+  (IF e.out.ok /\ r.ok /\ Strip_(e.out.list) # r.f THEN {"prepared_list_differs_from_specification"} ELSE {})
+  \cup (IF e.out.ok /\ "nearby" \in DOMAIN e.out
+        THEN (IF e.out.nearby.ok /\ e.out.nearby.perimeter
+                 /\ Strip_(e.out.nearby.list) = ToNearby(Strip_(e.out.list), {"BIOMASA", "BIOMASADENSIFICADA", "RED1", "RED2", "EAMBIENTE", "TERMOSOLAR"})
+              THEN {} ELSE {"to_nearby_differs_from_specification"})
+        ELSE {})
 
 \* Eval events of the shapes
 KeysFound(e) == {<<e.finds[i].k[1], e.finds[i].k[2], e.finds[i].k[3], e.finds[i].k[4]>> : i \in 1..Len(e.finds)}
